@@ -49,6 +49,10 @@ def success_case(asm, acc, case):
     root = tempfile.mkdtemp(prefix='bbv-c17-')
     try:
         items = randprog.gen(rng, dict(n=(3, 30), big_gap=0.0))
+        if case['idx'] % 7 == 6 and not case['big']:
+            # a source that assembles to zero bytes (definitions and labels only): still a successful run with (empty) outputs
+            items = [{'k': 'const', 'name': 'ONLY_K', 'value': 5, 'text': '5'}, {'k': 'label', 'name': 'ONLY_L'}, {'k': 'label', 'name': 'END_L'}]
+            acc['ctr']['zero_byte_programs'] += 1
         if case['big']:
             items.append({'k': 'gap', 'n': rng.choice([65536, 70000, 131072 + 6])})
             items.append({'k': 'label', 'name': 'AFTERBIG'})
